@@ -17,7 +17,7 @@ from __future__ import annotations
 import itertools
 
 from .core import AnalysisError
-from .objmodel import ClassModel
+from .objmodel import ClassModel, maybe_install_re
 from .ordabs import ModelRaise, Obj
 from .repo import Repo
 
@@ -52,6 +52,34 @@ def ref_line_of(text: str, p: int) -> str:
     start = text.rfind("\n", 0, p) + 1
     end = text.find("\n", p)
     return text[start: len(text) if end == -1 else end + 1]
+
+
+def crlf_texts():
+    """The same shapes with "\\r\\n" line breaks (what error messages are shown for; the C14 utilities are specified
+    for "\\n" only): a break of two characters tells a line table built from piece lengths from one that assumes a
+    break is one character long, and an offset may fall between the two characters."""
+    seen = set()
+    for k in range(1, 4):
+        for lens in itertools.product(("", "a", "ab"), repeat=k):
+            for final_break in (True, False):
+                t = "\r\n".join(lens) + ("\r\n" if final_break else "")
+                if "\r" in t and t not in seen:
+                    seen.add(t)
+                    yield t
+
+
+def ref_piece(text: str, p: int) -> tuple[int, int, str]:
+    """(line number, 1-based column, line with its break) of offset p over the partition of the text into lines with
+    their breaks; the end of a text that ends with a break is the start of a new, empty line."""
+    start = 0
+    pieces = text.splitlines(keepends=True)
+    for i, piece in enumerate(pieces):
+        if p < start + len(piece):
+            return i + 1, p - start + 1, piece
+        start += len(piece)
+    if not pieces or pieces[-1].splitlines() != [pieces[-1]]:
+        return len(pieces) + 1, p - start + 1, ""
+    return len(pieces), p - (start - len(pieces[-1])) + 1, pieces[-1]
 
 
 def ref_lines(text: str, a: int, b: int) -> list[str]:
@@ -124,6 +152,7 @@ def check_error_context(repo: Repo, where: str, thorough: bool = False) -> tuple
     of a new, empty line), on the same model texts and every offset."""
     rel = "src/pest/exceptions.py"
     cm = ClassModel(repo, rel, where, max_steps=50000)
+    maybe_install_re(cm)
     if "error_context" not in cm.env:
         raise AnalysisError(f"anchor vanished: {rel}::error_context")
     bad: list[tuple[str, str]] = []
@@ -149,6 +178,23 @@ def check_error_context(repo: Repo, where: str, thorough: bool = False) -> tuple
             wl = ref_line_of(text, p).rstrip("\n")
             if line not in (wl, wl.rstrip()):
                 bad.append((f"the source line shown is not the line of the position {where_}", f"{desc}: shows {line!r}, the line is {wl!r}"))
+    for text in crlf_texts():
+        for p in range(len(text) + 1):
+            n += 1
+            desc = f"text {text!r}, offset {p}"
+            try:
+                got = cm.env["error_context"](text, p)
+            except ModelRaise as err:
+                bad.append(("error_context raises on a text with CRLF line breaks", f"{desc}: {err}"))
+                continue
+            if not (isinstance(got, tuple) and len(got) == 3):
+                continue
+            line, ln, col = got
+            wln, wcol, piece = ref_piece(text, p)
+            if (ln, col) != (wln, wcol):
+                bad.append(("the line:column shown is not that of the position in a text with CRLF line breaks" + (" (between the CR and the LF)" if 0 < p < len(text) and text[p - 1] == "\r" and text[p] == "\n" else ""), f"{desc}: shows {ln}:{col}, the position is at {wln}:{wcol}"))
+            elif line not in (piece.rstrip("\r\n"), piece.rstrip()):
+                bad.append(("the source line shown is not the line of the position in a text with CRLF line breaks", f"{desc}: shows {line!r}, the line is {piece!r}"))
     return n, bad
 
 
@@ -157,6 +203,7 @@ def check_grammar_error_context(repo: Repo, where: str, thorough: bool = False) 
     line) - points at the line and column of p, a place that exists in the text."""
     rel = "src/pest/grammar/exceptions.py"
     cm = ClassModel(repo, rel, where, max_steps=50000)
+    maybe_install_re(cm)
     if "PestGrammarError" not in cm.classes or cm._resolve("PestGrammarError", "_error_context") is None:  # noqa: SLF001
         raise AnalysisError(f"anchor vanished: {rel}::PestGrammarError._error_context")
     bad: list[tuple[str, str]] = []
@@ -183,4 +230,21 @@ def check_grammar_error_context(repo: Repo, where: str, thorough: bool = False) 
             wl = ref_line_of(text, p).rstrip("\n")
             if cur not in (wl, wl.rstrip()):
                 bad.append((f"the source line shown is not the line of the position {where_}", f"{desc}: shows {cur!r}, the line is {wl!r}"))
+    for text in crlf_texts():
+        for p in range(len(text) + 1):
+            n += 1
+            desc = f"text {text!r}, offset {p}"
+            try:
+                got = cm.call(err_obj, "_error_context", text, p)
+            except ModelRaise as err:
+                bad.append(("_error_context raises on a text with CRLF line breaks", f"{desc}: {err}"))
+                continue
+            if not (isinstance(got, tuple) and len(got) == 5):
+                continue
+            ln, col, _prev, cur, _next = got
+            wln, wcol, piece = ref_piece(text, p)
+            if (ln, col) != (wln, wcol - 1):
+                bad.append(("the line and column reported are not those of the position in a text with CRLF line breaks", f"{desc}: reports line {ln}, column {col} (0-based), the position is at line {wln}, column {wcol - 1}"))
+            elif cur not in (piece.rstrip("\r\n"), piece.rstrip()):
+                bad.append(("the source line shown is not the line of the position in a text with CRLF line breaks", f"{desc}: shows {cur!r}, the line is {piece!r}"))
     return n, bad
